@@ -23,8 +23,9 @@ RULE = ("all argument lists: <= 3 format groups from the alphabet, each with "
 
 GROUPS = [("B", (0xA1,)), ("H", (0xB2C3,)), ("I", (0xD4E5F607,)),
           ("H2xH", (0x1122, 0x3344)), ("4s", (b"wxyz",)),
-          ("HBB", (0x5566, 0x77, 0x88)), ("8s", (b"12345678",)),
-          ("h", (-2,)), ("q", (-3,))]
+          ("HBB", (0x5566, 0x77, 0x88)), ("BI", (0x99, 0xA0B0C0D0)),
+          ("8s", (b"12345678",)), ("h", (-2,)), ("q", (-3,)),
+          ("BQ", (1, 0x0102030405060708))]
 DATA = [None, 0, 3, b"", b"\x01", b"abc", bytes(range(100, 140))]
 
 
